@@ -4,6 +4,8 @@ import (
 	"go/constant"
 	"go/token"
 	"go/types"
+	"sort"
+	"strings"
 
 	"golang.org/x/tools/go/ssa"
 )
@@ -263,4 +265,73 @@ func VarargValues(arg ssa.Value) []ssa.Value {
 		}
 	}
 	return out
+}
+
+// ExprShape renders the computation of v as a term over field names, constants
+// and operators, ignoring which object the fields belong to (sibling formulas on
+// different receivers compare equal when they compute the same thing). Phis are
+// rendered as the sorted set of their incoming shapes with the branch conditions'
+// shapes; values it cannot render become their type.
+func ExprShape(v ssa.Value) string { return exprShape(v, 8, map[ssa.Value]bool{}) }
+
+func exprShape(v ssa.Value, d int, seen map[ssa.Value]bool) string {
+	if v == nil {
+		return "nil"
+	}
+	if d == 0 || seen[v] {
+		return "…"
+	}
+	switch x := v.(type) {
+	case *ssa.Const:
+		if x.Value == nil {
+			return "nil"
+		}
+		return x.Value.ExactString()
+	case *ssa.BinOp:
+		return "(" + exprShape(x.X, d-1, seen) + " " + x.Op.String() + " " + exprShape(x.Y, d-1, seen) + ")"
+	case *ssa.UnOp:
+		if x.Op == token.MUL {
+			if fa, ok := x.X.(*ssa.FieldAddr); ok {
+				return "." + fieldNameOf(fa.X.Type(), fa.Field)
+			}
+			return "*" + exprShape(x.X, d-1, seen)
+		}
+		return x.Op.String() + exprShape(x.X, d-1, seen)
+	case *ssa.Field:
+		return "." + fieldNameOf(x.X.Type(), x.Field)
+	case *ssa.Convert:
+		return exprShape(x.X, d-1, seen)
+	case *ssa.ChangeType:
+		return exprShape(x.X, d-1, seen)
+	case *ssa.Phi:
+		seen[v] = true
+		var parts []string
+		for i, e := range x.Edges {
+			cond := ""
+			if i < len(x.Block().Preds) {
+				p := x.Block().Preds[i]
+				// the nearest branch deciding this edge
+				for b := p; b != nil; b = b.Idom() {
+					if iff, ok := b.Instrs[len(b.Instrs)-1].(*ssa.If); ok && len(b.Succs) == 2 {
+						cond = exprShape(iff.Cond, d-1, seen)
+						break
+					}
+				}
+			}
+			parts = append(parts, exprShape(e, d-1, seen)+" if~"+cond)
+		}
+		delete(seen, v)
+		sort.Strings(parts)
+		return "phi{" + strings.Join(parts, " | ") + "}"
+	case *ssa.Parameter:
+		return "param:" + x.Name()
+	}
+	return "<" + typeName(v.Type()) + ">"
+}
+
+func fieldNameOf(t types.Type, i int) string {
+	if st, ok := deref(t).Underlying().(*types.Struct); ok && i < st.NumFields() {
+		return st.Field(i).Name()
+	}
+	return "?"
 }
